@@ -187,6 +187,12 @@ func (cn *CoreNet) deliver(a *CNode, fromNum int, fromID uint32, diff []*hg.Even
 	if a.lost {
 		x["lost"] = a.lostWhy
 	}
+	if a.app.lostFired && a.nospec == "" {
+		a.nospec = "commit-reply-lost"
+	}
+	if a.nospec != "" {
+		x["nospec"] = a.nospec
+	}
 	cn.w.Emit(a.num, "Sync", x, o)
 	cn.steps++
 	if serr != nil && !hg.IsNormalSelfParentError(serr) {
